@@ -24,7 +24,8 @@ Inductive expr : Type :=
 | EConcat (l : list expr)                  (* first element = least significant part *)
 | EZext (w : nat) (a : expr)               (* zero-extend or truncate to w bits *)
 | ESext (w : nat) (a : expr)               (* sign-extend or truncate to w bits *)
-| ECall (f : nat) (a : expr).              (* opaque word function number f (a separately verified S-box) *)
+| ECall (f : nat) (a : expr)               (* opaque word function number f (a separately verified S-box) *)
+| EAdd (a b : expr).                       (* addition modulo 2^width (ripple carry) *)
 
 Inductive stmt : Type :=
 | SLocal (x : nat) (e : expr)              (* x := e *)
@@ -41,6 +42,13 @@ Section Eval.
   Fixpoint map2 (f : B -> B -> B) (a b : list B) : list B :=
     match a, b with
     | x :: a', y :: b' => f x y :: map2 f a' b'
+    | _, _ => []
+    end.
+
+  (* ripple-carry addition, least significant bit first; the result has the length of the shorter operand *)
+  Fixpoint add_bits (c : B) (a b : list B) : list B :=
+    match a, b with
+    | x :: a', y :: b' => bx (bx x y) c :: add_bits (bx (ba x y) (ba c (bx x y))) a' b'
     | _, _ => []
     end.
 
@@ -111,6 +119,7 @@ Section Eval.
     | EZext w a => take_pad w b0 (eval m loc a)
     | ESext w a => let v := eval m loc a in take_pad w (last v b0) v
     | ECall f a => callf f (eval m loc a)
+    | EAdd a b => add_bits b0 (eval m loc a) (eval m loc b)
     end.
 
   Definition exec1 (st : mem * list (list B)) (s : stmt) : mem * list (list B) :=
@@ -149,4 +158,7 @@ Fixpoint width (lw : list nat) (e : expr) : option nat :=
                                           | Some x, Some y => Some (x + y) | _, _ => None end) (Some 0) l
   | EZext w a | ESext w a => match width lw a with Some x => if Nat.ltb 0 x then Some w else None | None => None end
   | ECall _ a => width lw a
+  | EAdd a b => match width lw a, width lw b with
+                | Some x, Some y => if Nat.eqb x y then Some x else None
+                | _, _ => None end
   end.
